@@ -1576,7 +1576,8 @@ THEOREMS = {
             "Iauthd.Properties.C03_reply_gated", "Iauthd.Properties.C03_timeout_sticky", "Iauthd.Proto.runOps_hold",
             "Iauthd.Proto.reqEvent_holdOut", "Iauthd.Proto.xqReply_holdOut", "Iauthd.Proto.gate_removes_if"],
     "C04": ["Iauthd.Properties.C04_stray_tag", "Iauthd.Properties.C04_not_awaited", "Iauthd.Properties.C04_tag_exact",
-            "Iauthd.Properties.C04_others", "Iauthd.Proto.parseTag_range", "Iauthd.Proto.validateRequest_serial"],
+            "Iauthd.Properties.C04_others", "Iauthd.Proto.parseTag_range", "Iauthd.Proto.validateRequest_serial", "Iauthd.Proto.parseTag_routing",
+            "Iauthd.Properties.C04_tag_readback", "Iauthd.Properties.C04_tag_injective"],
     "C05": ["Iauthd.Properties.C05_refusal", "Iauthd.Properties.C05_vouch", "Iauthd.Properties.C05_stamp_shape",
             "Iauthd.Properties.C05_blank_is_plain", "Iauthd.Properties.C05_dronecheck_no_stamp", "Iauthd.Proto.okStamp_some"],
     "C06": ["Iauthd.Properties.C06_query_iff", "Iauthd.Properties.C06_eligible", "Iauthd.Properties.C06_malformed_password",
@@ -1588,7 +1589,13 @@ THEOREMS = {
             "Iauthd.Proto.stepTimeout_total", "Iauthd.Proto.accept_ok", "Iauthd.Proto.gate_ok", "Iauthd.Proto.reqEvent_ok",
             "Iauthd.Proto.xqReply_ok", "Iauthd.Proto.newClient_ok", "Iauthd.Proto.ptonC_safe", "Iauthd.Addr.pton_safe"],
     "C09": ["Iauthd.Properties.C09_client_line", "Iauthd.Properties.C09_announced", "Iauthd.Properties.C09_address_text",
-            "Iauthd.Properties.C09_console_silent", "Iauthd.Addr.ntop_ref", "Iauthd.Addr.ntop_no_colon", "Iauthd.Addr.ntop_len"],
+            "Iauthd.Properties.C09_console_silent", "Iauthd.Addr.ntop_ref", "Iauthd.Addr.ntop_no_colon", "Iauthd.Addr.ntop_len",
+            "Iauthd.Properties.C09_wellformed", "Iauthd.Properties.C09_start", "Iauthd.Properties.C09_reload",
+            "Iauthd.Properties.C09_tag_roundtrip", "Iauthd.Properties.limits_ok", "Iauthd.Properties.bootState_ok",
+            "Iauthd.Properties.sampleCfg_ok", "Iauthd.Proto.runOps_wellFormed", "Iauthd.Proto.stepOp_wellFormed",
+            "Iauthd.Proto.startup_wellFormed", "Iauthd.Proto.applyConfig_ok", "Iauthd.Proto.sendReq_wellFormed",
+            "Iauthd.Proto.xquery_wellFormed", "Iauthd.Proto.global_wellFormed", "Iauthd.Proto.stats_wellFormed",
+            "Iauthd.Proto.tagOf_routing", "Iauthd.Addr.ntop_plain"],
     "C10": ["Iauthd.Properties.C10_handler_shrinks_only", "Iauthd.Properties.C10_announce", "Iauthd.Properties.C10_in_use_figure",
             "Iauthd.Properties.C10_ids_unique"],
     "C11": ["Iauthd.Properties.C11_first_match", "Iauthd.Properties.C11_no_match", "Iauthd.Properties.C11_criteria",
@@ -1613,7 +1620,9 @@ def lean_targets(prop):
 
 
 def lean_modules(prop):
-    return ["Iauthd.Proto.Text", "Iauthd.Proto.Model", "Iauthd.Proto.Handlers", "Iauthd.Proto.Step", "Iauthd.Proto.Hist", "Iauthd.Proto.Proofs", "Iauthd.Proto.Table", "Iauthd.Proto.Props", "Iauthd.Proto.Holds", "Iauthd.Proto.Chunk", "Iauthd.Proto.Names", "Iauthd.Properties." + prop]
+    return ["Iauthd.Proto.Text", "Iauthd.Proto.Model", "Iauthd.Proto.Handlers", "Iauthd.Proto.Step", "Iauthd.Proto.Hist", "Iauthd.Proto.Proofs", "Iauthd.Proto.Table", "Iauthd.Proto.Props", "Iauthd.Proto.Holds", "Iauthd.Proto.Chunk", "Iauthd.Proto.Names"] + (
+        ["Iauthd.Proto.Render", "Iauthd.Proto.RenderHex", "Iauthd.Proto.RenderLines", "Iauthd.Proto.RenderInv", "Iauthd.Proto.RenderStep",
+         "Iauthd.Proto.RenderConf", "Iauthd.Addr.ProofsChars"] if prop in ("C09", "C04") else []) + ["Iauthd.Properties." + prop]
 
 
 def checker_cmd(prop):
